@@ -4,8 +4,80 @@ fiber, chunk size and tensor.  Tie: Lean operations vs the minifiber stand-in on
 generated specification (G3: uniform_occupancy with any leader holding the rank, 1-2 levels incl. different
 leaders per level, beneath a shape split, flatten of two ranks, occupancy of the flattened rank; level-sorted
 loop orders) is executed and compared with the unmapped compile and the dense oracle."""
-import json, random
-import common, pool, specs, gens, ftdiff, c02
+import json, random, re
+import common, pool, specs, gens, ftdiff, c02, c01, semcheck
+
+
+def dyn_request(case, rec, ex):
+    """single uniform_occupancy level on a contracted rank of a product Einsum: the request for the Lean model of the nest
+    with the dynamic split (Props/C03Nest.dynamic_nest'): unpartitioned Einsum with loop order = outer loops ++ remaining
+    loops, inputs, leader, occupancy, the emitted order of the inner loops"""
+    e = case["eins"][0]
+    d = rec["yaml"]
+    parts = ((d.get("mapping") or {}).get("partitioning") or {}).get(e["out"]) or {}
+    if len(parts) != 1 or len(e["terms"]) != 1 or e["terms"][0]["kind"] != "times":
+        return None
+    (K, stack), = parts.items()
+    if len(stack) != 1:
+        return None
+    m = re.fullmatch(r"uniform_occupancy\((\w+)\.(\d+)\)", stack[0])
+    if not m or K in case["decl"][e["out"]]:
+        return None
+    leader, n = m.group(1), int(m.group(2))
+    lo = ((d.get("mapping") or {}).get("loop-order") or {}).get(e["out"]) or (pool.loop_ranks(d) or {}).get(e["out"])
+    if lo is None or K + "1" not in lo or K + "0" not in lo:
+        return None
+    i1 = lo.index(K + "1")
+    pre, rs2 = lo[:i1], lo[i1:]
+    rsU = [K if r == K + "1" else r for r in rs2 if r != K + "0"]
+    loopU = pre + rsU
+    return {"op": "nest_dyn", "loop": loopU, "exts": [case["ext"][r] for r in loopU], "out_name": e["out"], "out_ranks": list(case["decl"][e["out"]]),
+            "terms": c01.lean_terms(case, ex), "tree": rec["tree"], "npre": len(pre), "K": K, "K1": K + "1", "K0": K + "0", "n": n, "leader": leader, "loop2": rs2}
+
+
+def check_model(ctx, recs):
+    """tie of C03.dynamic_nest' to the real compiler: the model nest (outer loops, split of the fibers reached at the
+    leader's boundaries, inner loops) has the real program's loop skeleton and computes what the real program computes on the
+    sampled input; the theorem's hypotheses (DynHyps) are decided in Lean for every sample"""
+    reqs, metas = [], []
+    for r in recs:
+        if not r["ok"] or r["case"] is None or len(r["case"]["eins"]) != 1:
+            continue
+        for ex in r["execs"][:2]:
+            if not ex.get("ok"):
+                continue
+            q = dyn_request(r["case"], r, ex)
+            if q is None:
+                ctx.stat("dynamic_model_not_applicable"); continue
+            reqs.append(q); metas.append((r, r["case"], ex))
+    for (r, case, ex), a in zip(metas, common.lean_batch(reqs)):
+        if "error" in a:
+            raise common.InternalError("lean: " + a["error"])
+        out = case["eins"][0]["out"]
+        real = c01.pts_set(ex["outputs"].get(out, []))
+        run_, spec_ = c01.pts_set(a["run"]), c01.pts_set(a["spec"])
+        nl = len(a["expected_loops"])
+        skel_ok = [(v, sorted(fs)) for v, fs in a["expected_loops"]] == [(v, sorted(fs)) for v, fs in a.get("actual_loops", [])][:nl]
+        ctx.stat("dynamic_model_samples")
+        if q_pre := a.get("hyps_ok"):
+            ctx.stat("dynamic_model_hypotheses_hold")
+        ok_h = bool(a["hyps_ok"])
+        ok_thm = (run_ == spec_) or not ok_h
+        ok_model = skel_ok and real == run_
+        ctx.ob(ok_h); ctx.ob(ok_thm); ctx.ob(ok_model)
+        if ok_h and ok_thm and ok_model:
+            continue
+        rep = dict(semcheck.base_replay(r, case, ex), real=real, model_run=run_, model_spec=spec_, hyps_ok=a["hyps_ok"],
+                   skeleton_expected=a["expected_loops"], skeleton_actual=a.get("actual_loops"))
+        if not ok_h:
+            ctx.violation(dict(rep, kind="model-hypotheses", obligation="C03.DynHyps decided on the sampled specification and input",
+                               reason="the hypotheses of C03.dynamic_nest' do not hold for this generated sample (generator or model out of step)"), False)
+        elif not ok_thm:
+            ctx.violation(dict(rep, kind="model-semantics", obligation="C03.dynamic_nest'", reason="model nest and meaning differ although DynHyps holds"), False)
+        else:
+            verdict_ok, reason, sig = semcheck.verdict(case, ex)
+            ctx.violation(dict(rep, kind="model-correspondence", obligation="model of the nest with a dynamic split (C03.dynamic_nest') = real compiler: loop skeleton and result",
+                               reason="the emitted program no longer matches the model nest (%s)" % ("skeleton" if not skel_ok else "result")), not verdict_ok)
 
 
 def run(ctx):
@@ -13,7 +85,10 @@ def run(ctx):
                 "occupancy beneath uniform_shape, flatten() of two ranks, occupancy of the flattened rank; loop orders keeping each rank's levels outermost to innermost), "
                 "each executed on 2-3 random inputs (leader/follower of unequal support) under several hash seeds vs the unmapped compile and the dense oracle; plus random "
                 "tensors/fibers for the Lean-vs-minifiber differential; non-trivial = program with splitEqual/flattenRanks; distinct = distinct text")
-    ctx.trusted = ["Lean kernel; Props/C03 (fiber/tensor-level algebra only: the composition with the loop nest - dynamic splits inside loops, several levels - is NOT proved)",
+    ctx.trusted = ["Lean kernel; Props/C03 (fiber/tensor-level algebra), Props/C03Dyn + C03Nest (dynamic_nest': one occupancy level on a contracted rank of a product Einsum, any leader, any outer loops, "
+                   "any order of the inner loops, every input: the nest with the split executed inside the loops computes the Einsum's meaning); NOT proved: several occupancy levels, occupancy of an "
+                   "output rank, flattening - decided by execution",
+                   "model of the dynamic nest = real compiler is sampled (DynHyps decided in Lean per sample, loop skeleton, result on the sampled input)",
                    "the fibertree contract of splitEqual/splitNonUniform/flattenRanks/unflattenRanks (FT/Ops.lean, Props/C03.leaderKeys = minifiber, compared on random fibers)",
                    "correctness of each program is decided by execution on sampled inputs against the unmapped program and the dense oracle"]
     k = 1 if ctx.tier == "quick" else 8
@@ -23,6 +98,9 @@ def run(ctx):
     n = 2 if ctx.tier == "quick" else 3
     recs = pool.collect(ctx, [dict(gen="g3", count=110 * k, modes=["plain"], nexec=n, reference=True), dict(gen="g3z", count=20 * k, modes=["plain"], nexec=n, reference=True)])
     c02.check_records(ctx, recs)
+    recs2 = pool.collect(ctx, [dict(gen="g3", count=40 * k, modes=["plain"], nexec=n, opts={"variant": "occ"})])
+    c02.check_records(ctx, recs2, need_reference=False)
+    check_model(ctx, recs + recs2)
 
 
 def replay(ctx, path):
